@@ -274,5 +274,95 @@ mod verif_c03 {
         forget(left);
         forget(right);
     }
+    // ---- the property's FIRST condition: replicas that each applied a gap-free prefix of every origin's operations,
+    //      stamps arbitrarily far apart (so purge cut-offs come into play).  A pool of three operations with distinct
+    //      stamps; replica X applies, per origin, every operation of that origin up to an arbitrary bound, in stamp
+    //      order; then the replicas merge each other in both orders.  Single source, so cut-offs are live.
+    #[derive(Clone, Copy)]
+    struct PoolOp {
+        delete: bool,
+        key: Key,
+        ts: HLCTimestamp,
+    }
+
+    fn any_pool_op() -> PoolOp {
+        PoolOp { delete: kani::any(), key: any_key(), ts: any_ts() }
+    }
+
+    fn apply_prefix(set: &mut OrSWotSet<1>, ops: &[PoolOp; 3], bound: &[u64; NODES]) -> u8 {
+        // ops are sorted by stamp by the caller
+        let mut applied = 0u8;
+        let mut i = 0;
+        while i < 3 {
+            let op = ops[i];
+            let mut n = 0;
+            let mut within = false;
+            while n < NODES {
+                if op.ts.node() as usize == n && op.ts.as_u64() <= bound[n] {
+                    within = true;
+                }
+                n += 1;
+            }
+            if within {
+                if op.delete {
+                    set.delete(op.key, op.ts);
+                } else {
+                    set.insert(op.key, op.ts);
+                }
+                applied += 1;
+            }
+            i += 1;
+        }
+        applied
+    }
+
+    fn same_gets(x: &OrSWotSet<1>, y: &OrSWotSet<1>) -> bool {
+        let mut k = 0;
+        while k < KEYS {
+            if x.get(&(k as Key)).copied() != y.get(&(k as Key)).copied() {
+                return false;
+            }
+            k += 1;
+        }
+        true
+    }
+
+    #[kani::proof]
+    #[kani::unwind(@@UNWIND@@)]
+    fn c03_prefix_merge_p3_n1() {
+        let mut ops = [any_pool_op(), any_pool_op(), any_pool_op()];
+        kani::assume(ops[0].ts != ops[1].ts && ops[0].ts != ops[2].ts && ops[1].ts != ops[2].ts);
+        // sort the pool by stamp (3-element network)
+        if ops[0].ts > ops[1].ts {
+            ops.swap(0, 1);
+        }
+        if ops[1].ts > ops[2].ts {
+            ops.swap(1, 2);
+        }
+        if ops[0].ts > ops[1].ts {
+            ops.swap(0, 1);
+        }
+        let bound_a: [u64; NODES] = kani::any();
+        let bound_b: [u64; NODES] = kani::any();
+        let mut a = OrSWotSet::<1>::default();
+        let mut b = OrSWotSet::<1>::default();
+        let na = apply_prefix(&mut a, &ops, &bound_a);
+        let nb = apply_prefix(&mut b, &ops, &bound_b);
+        let mut ab = a.clone();
+        ab.merge(b.clone());
+        let mut ba = b.clone();
+        ba.merge(a.clone());
+        assert!(same_gets(&ab, &ba), "gap-free prefixes: merging in either order yields the same live ids and timestamps");
+        let mut ab2 = ab.clone();
+        ab2.merge(b.clone());
+        assert!(same_gets(&ab2, &ab), "re-merging a state already merged changes nothing");
+        kani::cover!(na == 1 && nb == 3, "a lagging replica merges a complete one");
+        kani::cover!(na >= 1 && nb >= 1 && ops[2].ts.seconds() > ops[0].ts.seconds() + 2 * WINDOW, "operations more than two forgiveness periods apart");
+        forget(a);
+        forget(b);
+        forget(ab);
+        forget(ba);
+        forget(ab2);
+    }
     // @@PLAYBACK@@
 }
